@@ -67,10 +67,26 @@ Definition real_step (S : sets) (o : op) (accepted : bool) : sets :=
 
 Definition is_ok (r : option err) : bool := match r with None => true | Some _ => false end.
 
+Definition sets_eqb : sets -> sets -> bool :=
+  list_eqb (fun a b => Nat.eqb (fst a) (fst b) && list_eqb rdef_eqb (snd a) (snd b)).
+
+(** two equal rule objects are loaded at once *)
+Fixpoint has_dup (l : list rule) : bool :=
+  match l with
+  | [] => false
+  | r :: t => mem_rule r t || has_dup t
+  end.
+
 (** walk along the history; returns (correspondence with the tree, correspondence
-    with the abstract index, property) *)
+    with the abstract index, property).
+
+    [bl]: since fix 003095f the repository deletes the very route OBJECT; the models
+    compare routes structurally, which is the same unless two equal rule objects
+    were loaded at once (possible with duplicate ids in a set, or when an existing
+    set is created again); from the step after that happened the models are no
+    longer compared with the implementation (the property still is evaluated). *)
 Fixpoint walk (probes : list (nat * str)) (ops : list op) (obs : list step_obs)
-         (tr : trepo) (mr : repo) (Sreal Sspec : sets) : bool * bool * bool :=
+         (tr : trepo) (mr : repo) (Sreal Sspec : sets) (bl : bool) : bool * bool * bool :=
   match ops, obs with
   | [], [] => (true, true, true)
   | o :: ops', ob :: obs' =>
@@ -79,30 +95,27 @@ Fixpoint walk (probes : list (nat * str)) (ops : list op) (obs : list step_obs)
     let Sreal' := real_step Sreal o (is_ok (o_res ob)) in
     let Sspec' := spec_step Sspec o in
     let (fr, fok) := t_load t_empty_repo Sreal' in
-    let (fs, fsok) := t_load t_empty_repo Sspec' in
-    let ct := res_eqb tres (o_res ob) && ans_eqb (t_answers (index tr') probes) (o_hist ob) &&
-              Bool.eqb fok (o_fresh_ok ob) && ans_eqb (t_answers (index fr) probes) (o_fresh ob) in
-    let cm := res_eqb_m mres (o_res ob) && ans_eqb (m_answers (index mr') probes) (o_hist ob) in
+    let (fs, fsok) := if sets_eqb Sreal' Sspec' then (fr, fok) else t_load t_empty_repo Sspec' in
+    let ct := bl ||
+              (res_eqb tres (o_res ob) && ans_eqb (t_answers (index tr') probes) (o_hist ob) &&
+               Bool.eqb fok (o_fresh_ok ob) && ans_eqb (t_answers (index fr) probes) (o_fresh ob)) in
+    let cm := bl || (res_eqb_m mres (o_res ob) && ans_eqb (m_answers (index mr') probes) (o_hist ob)) in
     let pr := Bool.eqb (is_ok (o_res ob)) (spec_ok Sspec o) &&
               o_fresh_ok ob && ans_eqb (o_hist ob) (o_fresh ob) &&
               fsok && ans_eqb (o_hist ob) (t_answers (index fs) probes) in
-    let '(a, b, c) := walk probes ops' obs' tr' mr' Sreal' Sspec' in
+    let bl' := bl || (fix_F4 fx && has_dup (known tr')) in
+    let '(a, b, c) := walk probes ops' obs' tr' mr' Sreal' Sspec' bl' in
     (ct && a, cm && b, pr && c)
   | _, _ => (false, false, false)
   end.
 
 Definition check (c : case) : verdict :=
   let ops := c_ops c in
-  let '(ct, cm, pr) := walk (c_probes c) ops (c_obs c) t_empty_repo empty [] [] in
+  let '(ct, cm, pr) := walk (c_probes c) ops (c_obs c) t_empty_repo empty [] [] false in
   (* where the abstract index is not claimed to behave like the code: node
      compression (C06-F3) and stale key names (C06-F5), unless repaired *)
   let structural := (negb (fix_F3 fx) && guard_F3 ops) || (negb (fix_F5 fx) && guard_F5 ops) in
-  (* with fixes/C06-F4.diff the repository deletes the very route OBJECT; the models
-     compare routes structurally, which is the same unless two equal rule objects
-     are loaded at once — possible only with duplicate ids in a set (C06-F6) or
-     when an existing set is created again; those histories are not compared then *)
-  let blind := fix_F4 fx && (guard_dupid ops || negb (wf_history ops)) in
-  {| v_corr := blind || (ct && (structural || cm));
+  {| v_corr := ct && (structural || cm);
      v_prop := negb (wf_history ops) || pr;
      v_guards := guards [(1%Z, guard_F1 ops); (2%Z, guard_F2 ops); (3%Z, negb (fix_F3 fx) && guard_F3 ops);
                          (4%Z, negb (fix_F4 fx) && guard_F4 ops); (5%Z, negb (fix_F5 fx) && guard_F5 ops);
